@@ -93,7 +93,33 @@ TMisc ==
     \cup {C(<<LdI(N(0), sz), RetA>>, Pkt(8)) : sz \in {0, 3, 8}}
     \cup {C(<<Jk("bad", N(0), 0, 0), RetA>>, Pkt(0)), C(<<Jx("bad", 0, 0), RetA>>, Pkt(0))}
 
-Cases == TAlu \cup TJmp \cup TLoad \cup TScratch \cup TMisc
+(* ---- long programs: the size dimension.  Jump.Skip is a 32-bit value (the K field of   *)
+(* `ja`), conditional skips are 8-bit: offsets of 255, 256, 257, 2^8+k, 511, 512, 1000     *)
+(* over a filler body of side-effecting instructions (A += 1, M[3] := A, X := 7 in turn),    *)
+(* followed by a tail that exposes A, X and M[3], so that a run that lands anywhere but      *)
+(* pc + 1 + Skip, or executes filler it jumped over, changes the verdict.                    *)
+FillIns(i) == CASE i % 3 = 1 -> AluK("add", N(1)) [] i % 3 = 2 -> St(0, 3) [] OTHER -> LdC(1, N(7))
+Filler(n) == [i \in 1..n |-> FillIns(i)]
+LTail == <<AluK("add", N(1000)), AluX("add"), LdM(1, 3), AluX("add"), RetA>>
+LongN == IF Level >= 2 THEN {1, 255, 256, 257, 300, 511, 512, 515, 1000} ELSE {255, 256, 257, 300, 515}
+(* skip classes for a body of n filler instructions and a tail of 5: the whole body, all but *)
+(* its last instruction, into the tail, exactly the last instruction, one past the end       *)
+(* (NewVM has to reject), and a short skip that runs most of a long body                      *)
+LongSkips(n) == {n, n - 1, n + 1, n + 4, n + 5} \cup (IF n = 255 \/ (Level >= 2 /\ n <= 300) THEN {1} ELSE {})
+(* <<SkipTrue, SkipFalse, A>> with A = 1 making `eq 1` true: the long skip is the one taken *)
+LongCond == {<<255, 0, N(1)>>, <<0, 255, N(2)>>, <<255, 254, N(1)>>, <<255, 254, N(2)>>, <<254, 255, N(2)>>}
+TLong ==
+    UNION {{C(<<LdC(0, N(5)), Ja(N(k))>> \o Filler(n) \o LTail, Pkt(0)) : k \in LongSkips(n)} : n \in LongN}
+    (* conditional jumps with 8-bit skips of 255 / 254 across a long body, taken and not taken; *)
+    (* with the bare RetA tail 255 lands exactly on the last instruction (n = 255) or one past   *)
+    (* the end (n = 254)                                                                          *)
+    \cup {C(<<LdC(0, j[3]), Jk("eq", N(1), j[1], j[2])>> \o Filler(n) \o t, Pkt(0)) :
+            j \in LongCond, n \in {254, 255, 256}, t \in {LTail, <<RetA>>}}
+    \cup {C(<<LdC(0, j[3]), LdC(1, N(1)), Jx("eq", j[1], j[2])>> \o Filler(n) \o <<RetA>>, Pkt(0)) :
+            j \in LongCond, n \in {254, 255}}
+    \cup {C(<<LdC(0, N(2)), Jk("eq", N(1), 255, 0)>> \o Filler(255) \o LTail, Pkt(0))}     \* not taken: runs the whole body
+
+Cases == TAlu \cup TJmp \cup TLoad \cup TScratch \cup TMisc \cup TLong
 
 Item(p, b) ==
     LET ok == Accepts(p) IN
